@@ -17,7 +17,16 @@
 #include <new>
 #include <vector>
 
+#include <etl/expected.hpp>
+#include <etl/flat_set.hpp>
+#include <etl/functional.hpp>
+#include <etl/set.hpp>
+#include <etl/stack.hpp>
+#include <etl/tuple.hpp>
 #include <etl/inplace_vector.hpp>
+#include <etl/optional.hpp>
+#include <etl/utility.hpp>
+#include <etl/variant.hpp>
 #include <etl/vector.hpp>
 
 #include "c03_track.hpp"
@@ -56,7 +65,8 @@ static std::vector<Step> parse(Toks& in)
         else {
             s.t = static_cast<int>(in.num());
             if (o == "pbr" || o == "pbc" || o == "eb" || o == "era" || o == "rsz" || o == "eif" || o == "erv" || o == "tpc" || o == "tpr"
-                || o == "tpe" || o == "upc" || o == "upr" || o == "upe") { need(1); }
+                || o == "tpe" || o == "upc" || o == "upr" || o == "upe" || o == "sir" || o == "sic" || o == "sem" || o == "sek" || o == "fir" || o == "fic"
+                || o == "fem" || o == "fek") { need(1); }
             else if (o == "icr" || o == "irv" || o == "emp" || o == "err" || o == "rsv" || o == "asn") { need(2); }
             else if (o == "inn") { need(3); }
             else if (o == "irg" || o == "mig") { need(1); s.xs = in.list(); }
@@ -67,7 +77,7 @@ static std::vector<Step> parse(Toks& in)
     return steps;
 }
 
-static bool is_self(std::string const& op) { return op == "sca" || op == "sma" || op == "ssw"; }
+static bool is_self(std::string const& op) { return op == "sca" || op == "sma" || op == "ssw" || op == "isc" || op == "ism"; }
 
 // ---- reference domain: the same history on std::vector<int> with the documented preconditions
 using SV = std::vector<int>;
@@ -99,10 +109,24 @@ static bool std_step(Step const& s, SV (&v)[2], std::size_t cap, bool movable)
     else if (op == "cpc" || op == "ivc") { }
     else if (op == "mvc") { mark(x); }
     else if (op == "ivm") { x.clear(); }
+    else if (op == "iva") { x = y; }
+    else if (op == "ivx") { x = y; y.clear(); }
+    else if (op == "isc" || op == "ism") { }
     else if (op == "mrt") { }
     else if (op == "eif") { auto id = static_cast<int>(A(0)); std::erase_if(x, [&](int e) { return pred_of(id, e); }); }
     else if (op == "erv") { std::erase(x, static_cast<int>(A(0))); }
     else if (op == "sca" || op == "sma" || op == "ssw") { }
+    else if (op == "sir" || op == "sic" || op == "sem" || op == "fir" || op == "fic" || op == "fem") {
+        // std::set semantics on the sorted vector; static_set silently ignores an insert into a full set,
+        // flat_set over a static_vector inherits the vector's precondition
+        auto key  = static_cast<int>(A(0));
+        bool have = std::find(x.begin(), x.end(), key) != x.end();
+        if (!have) {
+            if (room < 1) { return op[0] == 's'; }
+            x.insert(std::partition_point(x.begin(), x.end(), [&](int e) { return e < key; }), key);
+        }
+    }
+    else if (op == "sek" || op == "fek") { std::erase(x, static_cast<int>(A(0))); }
     else { return false; }
     return true;
 }
@@ -165,18 +189,100 @@ static void iv_step(Step const& s, Vec* (&v)[2])
     else if (op == "pop") { x.pop_back(); }
     else if (op == "clr") { x.clear(); }
     else if (op == "ivm") { Vec c(etl::move(x)); }
+    else if (op == "ivx") { x = etl::move(*v[1 - s.t]); }
+    else if (op == "ism") { auto& r = x; x = etl::move(r); }
     else {
         if constexpr (T::copyable) {
-            if (op == "tpc") { T c(I(0)); (void)x.try_push_back(c); }
+            if (op == "iva") { x = *v[1 - s.t]; }
+            else if (op == "isc") { auto& r = x; x = r; }
+            else if (op == "tpc") { T c(I(0)); (void)x.try_push_back(c); }
             else if (op == "upc") { T c(I(0)); (void)x.unchecked_push_back(c); }
             else if (op == "ivc") { Vec c(x); }
         }
     }
 }
 
+// ---- impl: stack<T, static_vector<T, N>>, static_set<T, N>, flat_set<T, static_vector<T, N>> ----------
+template <typename T, std::size_t N>
+struct StackObj : etl::stack<T, etl::static_vector<T, N>> {
+    using base = etl::stack<T, etl::static_vector<T, N>>;
+    using base::c;
+    auto data() { return c.data(); }
+    auto begin() const { return c.begin(); }
+    auto end() const { return c.end(); }
+};
+
+template <typename T, std::size_t N>
+struct SetObj : etl::static_set<T, N> {
+    auto data() { return this->begin(); }
+};
+
+template <typename T, std::size_t N>
+struct FlatObj : etl::flat_set<T, etl::static_vector<T, N>> {
+    auto data() { return this->begin(); }
+};
+
+template <typename Vec, typename T>
+static void sk_step(Step const& s, Vec* (&v)[2])
+{
+    auto& x = *v[s.t];
+    auto& y = *v[1 - s.t];
+    auto const& op = s.op;
+    auto I = [&](int i) { return static_cast<int>(s.a[static_cast<std::size_t>(i)]); };
+    if (op == "pbr") { x.push(T(I(0))); }
+    else if (op == "eb") { x.emplace(I(0)); }
+    else if (op == "pop") { x.pop(); }
+    else if (op == "swp") { v[0]->swap(*v[1]); }
+    else if (op == "mva") { x = etl::move(y); }
+    else if (op == "mvc") { Vec c(etl::move(x)); }
+    else if (op == "mrt") { Vec tmp(etl::move(x)); x = etl::move(tmp); }
+    else if (op == "sma") { auto& r = x; x = etl::move(r); }
+    else if (op == "ssw") { x.swap(x); }
+    else {
+        if constexpr (T::copyable) {
+            if (op == "pbc") { T c(I(0)); x.push(c); }
+            else if (op == "cpa") { x = y; }
+            else if (op == "cpc") { Vec c(x); }
+            else if (op == "sca") { auto& r = x; x = r; }
+        }
+    }
+}
+
+template <typename Vec, typename T, bool Flat>
+static void set_step(Step const& s, Vec* (&v)[2])
+{
+    auto& x = *v[s.t];
+    auto& y = *v[1 - s.t];
+    auto const& op = s.op;
+    auto A = [&](int i) { return s.a[static_cast<std::size_t>(i)]; };
+    auto I = [&](int i) { return static_cast<int>(A(i)); };
+    if (op == "sir" || op == "fir") { T c(I(0)); (void)x.insert(etl::move(c)); }
+    else if (op == "era") { (void)x.erase(x.begin() + A(0)); }
+    else if (op == "err") { (void)x.erase(x.begin() + A(0), x.begin() + A(1)); }
+    else if (op == "clr") { x.clear(); }
+    else if (op == "swp") { v[0]->swap(*v[1]); }
+    else if (op == "mva") { x = etl::move(y); }
+    else if (op == "mvc") { Vec c(etl::move(x)); }
+    else if (op == "mrt") { Vec tmp(etl::move(x)); x = etl::move(tmp); }
+    else if (op == "sma") { auto& r = x; x = etl::move(r); }
+    else if (op == "ssw") { x.swap(x); }
+    else {
+        if constexpr (T::copyable) {
+            if (op == "sic" || op == "fic") { T c(I(0)); (void)x.insert(c); }
+            else if (op == "sem" || op == "fem") { (void)x.emplace(I(0)); }
+            else if (op == "sek" || op == "fek") { T c(I(0)); (void)x.erase(c); }
+            else if (op == "cpa") { x = y; }
+            else if (op == "cpc") { Vec c(x); }
+            else if (op == "sca") { auto& r = x; x = r; }
+        }
+    }
+}
+
 static bool g_raw = false;
 
-template <typename Vec, typename T, bool IsIv>
+enum Kind : int { KSv = 0, KIv = 1, KStack = 2, KSet = 3, KFlat = 4 };
+
+template <typename Vec, typename T, int K>
 static void run_hist(std::vector<Step> const& steps, std::size_t cap, Out& impl, bool monitor_only)
 {
     trk::g_log.clear();
@@ -203,7 +309,11 @@ static void run_hist(std::vector<Step> const& steps, std::size_t cap, Out& impl,
         if (is_self(s.op)) { before = values(*v[s.t]); }
         Out stepo;
         guarded(stepo, [&](Out& o) {
-            if constexpr (IsIv) { iv_step<Vec, T>(s, v); } else { sv_step<Vec, T>(s, v); }
+            if constexpr (K == KIv) { iv_step<Vec, T>(s, v); }
+            else if constexpr (K == KStack) { sk_step<Vec, T>(s, v); }
+            else if constexpr (K == KSet) { set_step<Vec, T, false>(s, v); }
+            else if constexpr (K == KFlat) { set_step<Vec, T, true>(s, v); }
+            else { sv_step<Vec, T>(s, v); }
             o.tok("ok");
         });
         auto so = mon.run(where, trk::g_log, done);
@@ -250,28 +360,478 @@ static bool with_cap(i64 cap, F&& f)
 }
 
 template <typename T>
-static bool dispatch(bool iv, i64 cap, std::vector<Step> const& steps, Out& impl, bool monitor_only)
+static bool dispatch(std::string const& kind, i64 cap, std::vector<Step> const& steps, Out& impl, bool monitor_only)
 {
-    if (iv) {
-        return with_cap(cap, [&]<std::size_t N>() { run_hist<etl::inplace_vector<T, N>, T, true>(steps, N, impl, monitor_only); });
+    if (kind == "iv") {
+        return with_cap(cap, [&]<std::size_t N>() { run_hist<etl::inplace_vector<T, N>, T, KIv>(steps, N, impl, monitor_only); });
     }
-    return with_cap(cap, [&]<std::size_t N>() { run_hist<etl::static_vector<T, N>, T, false>(steps, N, impl, monitor_only); });
+    if (kind == "sk") {
+        return with_cap(cap, [&]<std::size_t N>() { run_hist<StackObj<T, N>, T, KStack>(steps, N, impl, monitor_only); });
+    }
+    if (kind == "ss") {
+        return with_cap(cap, [&]<std::size_t N>() { run_hist<SetObj<T, N>, T, KSet>(steps, N, impl, monitor_only); });
+    }
+    if (kind == "fs") {
+        return with_cap(cap, [&]<std::size_t N>() { run_hist<FlatObj<T, N>, T, KFlat>(steps, N, impl, monitor_only); });
+    }
+    return with_cap(cap, [&]<std::size_t N>() { run_hist<etl::static_vector<T, N>, T, KSv>(steps, N, impl, monitor_only); });
+}
+
+
+// =================================================================================================
+// owners of one object at a time: variant / optional / expected / inplace_function
+//   ohist <family> <k> <ops...>   omon <family> <k> <ops...>   (orawhist: raw events)
+// family = (var|opt|exp|fun)_(cm|m|c)
+//   var: etl::variant<T<0>, int, T<2>>      opt: etl::optional<T<1>>
+//   exp: etl::expected<T<0>, T<1>>          fun: etl::inplace_function<int(int*), 16> holding T<1> / T<2>
+// observation per object: index of the live alternative and its value (0 when it is not instrumented)
+// =================================================================================================
+struct OStep {
+    std::string op;
+    int t{0};
+    int j{0};
+    int x{0};
+};
+
+static std::vector<OStep> parse_own(Toks& in)
+{
+    std::vector<OStep> steps;
+    auto k = in.num();
+    for (i64 i = 0; i < k; ++i) {
+        OStep s;
+        s.op = in.str();
+        auto const& o = s.op;
+        if (o != "vsw" && o != "fsw") { s.t = static_cast<int>(in.num()); }
+        if (o == "vem" || o == "var" || o == "vac" || o == "vav" || o == "vat" || o == "fas") {
+            s.j = static_cast<int>(in.num());
+            s.x = static_cast<int>(in.num());
+        }
+        steps.push_back(s);
+    }
+    return steps;
+}
+
+static bool own_is_self(std::string const& op)
+{
+    return op == "vsc" || op == "vsm" || op == "vss" || op == "fsc" || op == "fsm" || op == "fss";
+}
+
+template <template <int> class T>
+struct VarAd {
+    using A   = T<0>;
+    using B   = T<2>;
+    using Obj = etl::variant<A, int, B>;
+    static void observe(Obj const& v, i64& idx, i64& val)
+    {
+        idx = static_cast<i64>(v.index());
+        val = 0;
+        if (idx == 0) { val = etl::get_if<0>(&v)->v; }
+        if (idx == 2) { val = etl::get_if<2>(&v)->v; }
+    }
+    static void apply(OStep const& s, Obj* (&v)[2])
+    {
+        auto& x        = *v[s.t];
+        auto& y        = *v[1 - s.t];
+        auto const& op = s.op;
+        if (op == "vem") {
+            if (s.j == 0) { x.template emplace<0>(s.x); }
+            else if (s.j == 1) { x.template emplace<1>(s.x); }
+            else { x.template emplace<2>(s.x); }
+        }
+        else if (op == "var") {
+            if (s.j == 0) { x = A(s.x); }
+            else if (s.j == 1) { x = int(s.x); }
+            else { x = B(s.x); }
+        }
+        else if (op == "vat") {
+            if (s.j == 0) { Obj tmp(etl::in_place_index<0>, s.x); x = etl::move(tmp); }
+            else if (s.j == 1) { Obj tmp(etl::in_place_index<1>, s.x); x = etl::move(tmp); }
+            else { Obj tmp(etl::in_place_index<2>, s.x); x = etl::move(tmp); }
+        }
+        else if (op == "vma") { x = etl::move(y); }
+        else if (op == "vsm") { auto& r = x; x = etl::move(r); }
+        else if (op == "vmc") { Obj c(etl::move(x)); }
+        else if (op == "vsw") { etl::swap(*v[0], *v[1]); }
+        else if (op == "vss") { etl::swap(x, x); }
+        else {
+            if constexpr (A::copyable) {
+                if (op == "vac") {
+                    if (s.j == 0) { A c(s.x); x = c; }
+                    else if (s.j == 1) { int c = s.x; x = c; }
+                    else { B c(s.x); x = c; }
+                }
+                else if (op == "vca") { x = y; }
+                else if (op == "vsc") { auto& r = x; x = r; }
+                else if (op == "vcc") { Obj c(x); }
+            }
+        }
+    }
+};
+
+template <template <int> class T>
+struct OptAd {
+    using E   = T<1>;
+    using Obj = etl::optional<E>;
+    static void observe(Obj const& v, i64& idx, i64& val)
+    {
+        idx = v.has_value() ? 1 : 0;
+        val = v.has_value() ? (*v).v : 0;
+    }
+    static void apply(OStep const& s, Obj* (&v)[2])
+    {
+        auto& x        = *v[s.t];
+        auto& y        = *v[1 - s.t];
+        auto const& op = s.op;
+        if (op == "vem") {
+            if (s.j == 1) { x.emplace(s.x); } else { x.reset(); }
+        }
+        else if (op == "vav") {
+            if (s.j == 1) { x = E(s.x); } else { x = etl::nullopt; }
+        }
+        else if (op == "vat") {
+            if (s.j == 1) { Obj tmp(etl::in_place, s.x); x = etl::move(tmp); }
+            else { Obj tmp; x = etl::move(tmp); }
+        }
+        else if (op == "vma") { x = etl::move(y); }
+        else if (op == "vsm") { auto& r = x; x = etl::move(r); }
+        else if (op == "vmc") { Obj c(etl::move(x)); }
+        else if (op == "vsw") { v[0]->swap(*v[1]); }
+        else if (op == "vss") { x.swap(x); }
+        else {
+            if constexpr (E::copyable) {
+                if (op == "vca") { x = y; }
+                else if (op == "vsc") { auto& r = x; x = r; }
+                else if (op == "vcc") { Obj c(x); }
+            }
+        }
+    }
+};
+
+template <template <int> class T>
+struct ExpAd {
+    using A   = T<0>;
+    using B   = T<1>;
+    using Obj = etl::expected<A, B>;
+    static void observe(Obj const& v, i64& idx, i64& val)
+    {
+        idx = v.has_value() ? 0 : 1;
+        val = v.has_value() ? (*v).v : v.error().v;
+    }
+    static void apply(OStep const& s, Obj* (&v)[2])
+    {
+        auto& x        = *v[s.t];
+        auto& y        = *v[1 - s.t];
+        auto const& op = s.op;
+        if (op == "vem") { x.emplace(s.x); }
+        else if (op == "vat") {
+            if (s.j == 0) { Obj tmp(etl::in_place, s.x); x = etl::move(tmp); }
+            else { Obj tmp(etl::unexpect, s.x); x = etl::move(tmp); }
+        }
+        else if (op == "vma") { x = etl::move(y); }
+        else if (op == "vsm") { auto& r = x; x = etl::move(r); }
+        else if (op == "vmc") { Obj c(etl::move(x)); }
+        else if (op == "vsw") { etl::swap(*v[0], *v[1]); }
+        else if (op == "vss") { etl::swap(x, x); }
+        else {
+            if constexpr (A::copyable) {
+                if (op == "vca") { x = y; }
+                else if (op == "vsc") { auto& r = x; x = r; }
+                else if (op == "vcc") { Obj c(x); }
+            }
+        }
+    }
+};
+
+template <template <int> class T>
+struct FunAd {
+    using C1  = T<1>;
+    using C2  = T<2>;
+    using Obj = etl::inplace_function<int(int*), 16>;
+    static void observe(Obj const& f, i64& idx, i64& val)
+    {
+        idx = 0;
+        val = 0;
+        if (static_cast<bool>(f)) {
+            int got = 0;
+            idx     = f(&got);
+            val     = got;
+        }
+    }
+    static void apply(OStep const& s, Obj* (&v)[2])
+    {
+        auto& x        = *v[s.t];
+        auto& y        = *v[1 - s.t];
+        auto const& op = s.op;
+        if (op == "fas") {
+            if (s.j == 1) { x = C1(s.x); } else { x = C2(s.x); }
+        }
+        else if (op == "fan") { x = nullptr; }
+        else if (op == "fca") { x = y; }
+        else if (op == "fma") { x = etl::move(y); }
+        else if (op == "fsc") { auto& r = x; x = r; }
+        else if (op == "fsm") { auto& r = x; x = etl::move(r); }
+        else if (op == "fcc") { Obj c(x); }
+        else if (op == "fmc") { Obj c(etl::move(x)); }
+        else if (op == "fsw") { v[0]->swap(*v[1]); }
+        else if (op == "fss") { x.swap(x); }
+        else if (op == "fiv") { (void)x(nullptr); }
+    }
+};
+
+template <typename Ad>
+static void run_own(std::vector<OStep> const& steps, Out& impl, bool monitor_only)
+{
+    using Obj = typename Ad::Obj;
+    trk::g_log.clear();
+    trk::g_log.reserve(1 << 12);
+    alignas(Obj) static unsigned char raw0[sizeof(Obj)];
+    alignas(Obj) static unsigned char raw1[sizeof(Obj)];
+    trk::Locator where;
+    where.by_tag = true;
+    where.regions.resize(2);
+    where.regions[0] = trk::Region{reinterpret_cast<char const*>(raw0), sizeof(Obj), 1};
+    where.regions[1] = trk::Region{reinterpret_cast<char const*>(raw1), sizeof(Obj), 1};
+    trk::Locator storage = where;
+    storage.collapsed    = true;
+    Obj* v[2] = {new (raw0) Obj{}, new (raw1) Obj{}};
+    trk::Monitor mon;
+    trk::Monitor mon_storage;
+    std::size_t done = 0;
+    (void)mon.run(where, trk::g_log, done);            // the events of the two default constructions
+    (void)mon_storage.run(storage, trk::g_log, done);
+    done = trk::g_log.size();
+    std::string selfs;
+    auto obs = [&](Obj const& w) {
+        i64 idx = 0;
+        i64 val = 0;
+        Ad::observe(w, idx, val);
+        return std::pair<i64, i64>{idx, val};
+    };
+    bool stopped = false;
+    for (auto const& s : steps) {
+        std::pair<i64, i64> before{0, 0};
+        if (own_is_self(s.op)) { before = obs(*v[s.t]); }
+        Out stepo;
+        guarded(stepo, [&](Out& o) {
+            Ad::apply(s, v);
+            o.tok("ok");
+        });
+        auto so = mon.run(where, trk::g_log, done);
+        (void)mon_storage.run(storage, trk::g_log, done);
+        done          = trk::g_log.size();
+        bool contract = stepo.s == "contract";
+        if (!monitor_only) {
+            impl.tok(";");
+            if (contract) { impl.tok("contract"); }
+            else {
+                impl.tok("ok");
+                for (auto* p : v) {
+                    auto o = obs(*p);
+                    impl.num(2).num(o.first).num(o.second);
+                }
+            }
+            impl.tok("/").tok(trk::render(so, g_raw));
+        }
+        if (contract) { stopped = true; break; }
+        if (own_is_self(s.op)) { selfs += (obs(*v[s.t]) == before) ? " 1" : " 0"; }
+    }
+    v[0]->~Obj();
+    v[1]->~Obj();
+    auto so = mon.run(where, trk::g_log, done);
+    (void)mon_storage.run(storage, trk::g_log, done);
+    if (!monitor_only) {
+        impl.tok("; end /").tok(trk::render(so, g_raw));
+        impl.tok("; wf").b(mon.wf).tok("alive").num(mon.alive());
+    } else {
+        if (stopped) { impl.tok("contract"); }
+        impl.tok("wf").b(mon.wf).tok("alive").num(mon.alive()).tok("st").b(mon_storage.wf).tok("self" + selfs);
+    }
+}
+
+template <template <int> class T>
+static bool own_dispatch(std::string const& kind, std::vector<OStep> const& steps, Out& impl, bool monitor_only)
+{
+    if (kind == "var") { run_own<VarAd<T>>(steps, impl, monitor_only); return true; }
+    if (kind == "opt") { run_own<OptAd<T>>(steps, impl, monitor_only); return true; }
+    if (kind == "exp") { run_own<ExpAd<T>>(steps, impl, monitor_only); return true; }
+    if constexpr (T<1>::copyable) {
+        if (kind == "fun") { run_own<FunAd<T>>(steps, impl, monitor_only); return true; }
+    }
+    return false;
+}
+
+static bool own_case(std::string const& op, Toks& in, Out& impl, Out& ref)
+{
+    g_raw             = op == "orawhist";
+    bool monitor_only = op == "omon";
+    auto family       = in.str();
+    auto steps        = parse_own(in);
+    auto kind         = family.substr(0, 3);
+    auto fl           = family.size() > 4 ? family.substr(4) : std::string();
+    bool ok           = false;
+    if (fl == "cm") { ok = own_dispatch<trk::TCM>(kind, steps, impl, monitor_only); }
+    else if (fl == "m") { ok = own_dispatch<trk::TM>(kind, steps, impl, monitor_only); }
+    else if (fl == "c") { ok = own_dispatch<trk::TC>(kind, steps, impl, monitor_only); }
+    if (!ok) { impl.tok("bad-instantiation"); return true; }
+    if (monitor_only) {
+        // the documented domain: an empty function is not invoked (indices as for std::variant / std::function)
+        int idx[2] = {0, 0};
+        bool dom   = true;
+        std::string selfs;
+        for (auto const& s : steps) {
+            auto const& o = s.op;
+            if (o == "vem" || o == "var" || o == "vac" || o == "vav" || o == "vat" || o == "fas") { idx[s.t] = s.j; }
+            else if (o == "vca" || o == "vma" || o == "fca") { idx[s.t] = idx[1 - s.t]; }
+            else if (o == "fma") { idx[s.t] = idx[1 - s.t]; idx[1 - s.t] = 0; }
+            else if (o == "vsw" || o == "fsw") { std::swap(idx[0], idx[1]); }
+            else if (o == "fan" || o == "fmc") { idx[s.t] = 0; }
+            else if (o == "fiv") { if (idx[s.t] == 0) { dom = false; break; } }
+            if (own_is_self(o)) { selfs += " 1"; }
+        }
+        if (dom) { ref.tok("wf 1 alive 0 st 1").tok("self" + selfs); }
+    }
+    return true;
+}
+
+
+// =================================================================================================
+// pair / tuple:  ahist <family> <k> <ops...>   amon <family> <k> <ops...>
+// family = (pr|tp)_(cm|m|c): etl::pair<T<0>, T<1>> / etl::tuple<T<0>, T<1>, T<2>>; member j of object c
+// is built from the value 10 (c + 1) + j.  observation: the member values of both objects.
+// =================================================================================================
+template <template <int> class T>
+struct PairAd {
+    using Obj = etl::pair<T<0>, T<1>>;
+    static constexpr bool copyable = T<0>::copyable;
+    static auto make(void* where, int c) -> Obj* { return new (where) Obj(10 * (c + 1), 10 * (c + 1) + 1); }
+    static auto values(Obj const& p) -> std::vector<int> { return {p.first.v, p.second.v}; }
+    static void swap(Obj& a, Obj& b) { a.swap(b); }
+};
+
+template <template <int> class T>
+struct TupleAd {
+    using Obj = etl::tuple<T<0>, T<1>, T<2>>;
+    static constexpr bool copyable = T<0>::copyable;
+    static auto make(void* where, int c) -> Obj* { return new (where) Obj(10 * (c + 1), 10 * (c + 1) + 1, 10 * (c + 1) + 2); }
+    static auto values(Obj const& p) -> std::vector<int> { return {etl::get<0>(p).v, etl::get<1>(p).v, etl::get<2>(p).v}; }
+    static void swap(Obj& a, Obj& b) { a.swap(b); }
+};
+
+static bool agg_is_self(std::string const& op) { return op == "asc" || op == "asm" || op == "ass"; }
+
+template <typename Ad>
+static void run_agg(std::vector<OStep> const& steps, Out& impl, bool monitor_only)
+{
+    using Obj = typename Ad::Obj;
+    trk::g_log.clear();
+    trk::g_log.reserve(1 << 12);
+    alignas(Obj) static unsigned char raw0[sizeof(Obj)];
+    alignas(Obj) static unsigned char raw1[sizeof(Obj)];
+    trk::Locator where;
+    where.by_tag = true;
+    where.regions.resize(2);
+    where.regions[0] = trk::Region{reinterpret_cast<char const*>(raw0), sizeof(Obj), 1};
+    where.regions[1] = trk::Region{reinterpret_cast<char const*>(raw1), sizeof(Obj), 1};
+    Obj* v[2] = {Ad::make(raw0, 0), Ad::make(raw1, 1)};
+    trk::Monitor mon;
+    std::size_t done = 0;
+    (void)mon.run(where, trk::g_log, done);
+    done = trk::g_log.size();
+    std::string selfs;
+    for (auto const& s : steps) {
+        auto& x = *v[s.t];
+        auto& y = *v[1 - s.t];
+        std::vector<int> before;
+        if (agg_is_self(s.op)) { before = Ad::values(x); }
+        auto const& op = s.op;
+        if (op == "ama") { x = etl::move(y); }
+        else if (op == "asm") { auto& r = x; x = etl::move(r); }
+        else if (op == "amc") { Obj c(etl::move(x)); }
+        else if (op == "asw") { Ad::swap(*v[0], *v[1]); }
+        else if (op == "ass") { Ad::swap(x, x); }
+        else {
+            if constexpr (Ad::copyable) {
+                if (op == "aca") { x = y; }
+                else if (op == "asc") { auto& r = x; x = r; }
+                else if (op == "acc") { Obj c(x); }
+            }
+        }
+        auto so = mon.run(where, trk::g_log, done);
+        done    = trk::g_log.size();
+        if (!monitor_only) {
+            impl.tok(";").tok("ok");
+            for (auto* p : v) {
+                auto vals = Ad::values(*p);
+                impl.num(static_cast<i64>(vals.size()));
+                for (auto e : vals) { impl.num(e); }
+            }
+            impl.tok("/").tok(trk::render(so, g_raw));
+        }
+        if (agg_is_self(s.op)) { selfs += (Ad::values(x) == before) ? " 1" : " 0"; }
+    }
+    v[0]->~Obj();
+    v[1]->~Obj();
+    auto so = mon.run(where, trk::g_log, done);
+    if (!monitor_only) {
+        impl.tok("; end /").tok(trk::render(so, g_raw));
+        impl.tok("; wf").b(mon.wf).tok("alive").num(mon.alive());
+    } else {
+        impl.tok("wf").b(mon.wf).tok("alive").num(mon.alive()).tok("self" + selfs);
+    }
+}
+
+template <template <int> class T>
+static bool agg_dispatch(std::string const& kind, std::vector<OStep> const& steps, Out& impl, bool monitor_only)
+{
+    if (kind == "pr") { run_agg<PairAd<T>>(steps, impl, monitor_only); return true; }
+    if (kind == "tp") { run_agg<TupleAd<T>>(steps, impl, monitor_only); return true; }
+    return false;
+}
+
+static bool agg_case(std::string const& op, Toks& in, Out& impl, Out& ref)
+{
+    g_raw             = op == "arawhist";
+    bool monitor_only = op == "amon";
+    auto family       = in.str();
+    std::vector<OStep> steps;
+    auto k = in.num();
+    for (i64 i = 0; i < k; ++i) {
+        OStep s;
+        s.op = in.str();
+        if (s.op != "asw") { s.t = static_cast<int>(in.num()); }
+        steps.push_back(s);
+    }
+    auto kind = family.substr(0, 2);
+    auto fl   = family.size() > 3 ? family.substr(3) : std::string();
+    bool ok   = false;
+    if (fl == "cm") { ok = agg_dispatch<trk::TCM>(kind, steps, impl, monitor_only); }
+    else if (fl == "m") { ok = agg_dispatch<trk::TM>(kind, steps, impl, monitor_only); }
+    else if (fl == "c") { ok = agg_dispatch<trk::TC>(kind, steps, impl, monitor_only); }
+    if (!ok) { impl.tok("bad-instantiation"); return true; }
+    if (monitor_only) {
+        std::string selfs;
+        for (auto const& s : steps) { if (agg_is_self(s.op)) { selfs += " 1"; } }
+        ref.tok("wf 1 alive 0").tok("self" + selfs);
+    }
+    return true;
 }
 
 bool vh::run_case(std::string const& op, Toks& in, Out& impl, Out& ref)
 {
+    if (op == "ohist" || op == "orawhist" || op == "omon") { return own_case(op, in, impl, ref); }
+    if (op == "ahist" || op == "arawhist" || op == "amon") { return agg_case(op, in, impl, ref); }
     if (op != "hist" && op != "rawhist" && op != "mon") { return false; }
     g_raw             = op == "rawhist";
     bool monitor_only = op == "mon";
     auto family       = in.str();
     auto cap          = in.num();
     auto steps        = parse(in);
-    bool iv           = family.rfind("iv_", 0) == 0;
+    auto kind         = family.substr(0, 2);
     auto fl           = family.substr(3);
     bool ok           = false;
-    if (fl == "cm") { ok = dispatch<trk::TrkCM>(iv, cap, steps, impl, monitor_only); }
-    else if (fl == "m") { ok = dispatch<trk::TrkM>(iv, cap, steps, impl, monitor_only); }
-    else if (fl == "c") { ok = dispatch<trk::TrkC>(iv, cap, steps, impl, monitor_only); }
+    if (fl == "cm") { ok = dispatch<trk::TrkCM>(kind, cap, steps, impl, monitor_only); }
+    else if (fl == "m") { ok = dispatch<trk::TrkM>(kind, cap, steps, impl, monitor_only); }
+    else if (fl == "c") { ok = dispatch<trk::TrkC>(kind, cap, steps, impl, monitor_only); }
     if (!ok) { impl.tok("bad-instantiation"); return true; }
     if (monitor_only) {
         SV v[2];
